@@ -70,6 +70,50 @@ theorem inv_run {acts : List Act} : ∀ {s s' : St}, Inv s → run true s acts =
     | none => simp [hs] at hr
     | some s1 => rw [hs] at hr; exact ih (inv_step h hs) hr
 
+@[simp] theorem setSnap_written (s : St) (t : Tid) (v : Option Bytes) : (s.setSnap t v).written = s.written := by
+  cases t <;> rfl
+
+/-- whatever the interleaving, the bytes accepted are the chunks of the Write calls in lock order -/
+theorem run_written (g : Bool) : ∀ (acts : List Act) (s s' : St), run g s acts = some s' →
+    s'.written = s.written ++ (writesOf acts).flatten := by
+  intro acts
+  induction acts with
+  | nil => intro s s' h; simp [run] at h; subst h; simp [writesOf]
+  | cons a as ih =>
+    intro s s' h
+    simp only [run] at h
+    cases hs : step g s a with
+    | none => simp [hs] at h
+    | some s1 =>
+      rw [hs] at h
+      have := ih s1 s' h
+      rw [this]
+      cases a with
+      | write c =>
+        simp only [step] at hs
+        split at hs
+        · cases hs
+        · injection hs with hs; subst hs; simp [writesOf]
+      | flushBegin t =>
+        have : s1.written = s.written := by
+          simp only [step] at hs
+          repeat' split at hs
+          all_goals first | (injection hs with hs; rw [← hs]; simp; done) | cases hs
+        simp [writesOf, this]
+      | flushEnd t =>
+        have : s1.written = s.written := by
+          simp only [step] at hs
+          repeat' split at hs
+          all_goals first | (injection hs with hs; rw [← hs]; simp; done) | cases hs
+        simp [writesOf, this]
+      | trySkip =>
+        have : s1.written = s.written := by
+          simp only [step] at hs
+          split at hs
+          · injection hs with hs; subst hs; rfl
+          · cases hs
+        simp [writesOf, this]
+
 /-- with TryLock the serving goroutine is never parked and handles one stanza per step -/
 theorem serveRun_tryLock : ∀ (inbox : List Stanza) (s : DS), s.serveParked = false → s.inbox = inbox →
     (serveRun true inbox.length s).inbox = [] ∧ (serveRun true inbox.length s).serveParked = false ∧
